@@ -363,6 +363,7 @@ def run(ctx, which):
         java_cross(ctx, world, jsel)
 
     bad_arity_stream(ctx, world)
+    resolution_across_edits(ctx, world)
 
     # 6. glue: string length and float32 rounding against Lean's own
     lines, meta = [], []
@@ -398,6 +399,67 @@ def run(ctx, which):
                                       % (b, pb, lb))
     ctx.extra["node_table"] = "%d attached, %d detached" % (
         len(world.attached), len(world.detached))
+
+
+def resolution_across_edits(ctx, world):
+    """the lookup a decode resolves UUIDs with is the IR as it is at that
+    moment: the same bytes decoded before a node is detached, after, and after
+    it is attached again (direct oracle; in the theorems the table is the
+    parameter `lookup`)"""
+    import gtirb
+    rng = ctx.rng
+    ir = world.ir
+    m = ir.modules[0]
+    for rnd in range(ctx.scale(30, 300)):
+        px = gtirb.ProxyBlock(module=m)
+        sym = gtirb.Symbol(name="t", module=m)
+        n = rng.choice([px, sym])
+        shape_ = rng.choice(["UUID", "Offset", "sequence<UUID>",
+                             "mapping<string,UUID>"])
+        val = {"UUID": n, "Offset": gtirb.Offset(n, 7),
+               "sequence<UUID>": [n, n],
+               "mapping<string,UUID>": {"k": n}}[shape_]
+        raw = cc.impl_encode(gtirb, shape_, val)
+
+        def elem(v):
+            if shape_ == "UUID":
+                return v
+            if shape_ == "Offset":
+                return v.element_id
+            if shape_ == "sequence<UUID>":
+                return v[0]
+            return v["k"]
+        seq = []
+        try:
+            seq.append(("attached", elem(cc.impl_decode(
+                gtirb, shape_, raw, ir.get_by_uuid))))
+            n.module = None
+            seq.append(("detached", elem(cc.impl_decode(
+                gtirb, shape_, raw, ir.get_by_uuid))))
+            n.module = m
+            seq.append(("re-attached", elem(cc.impl_decode(
+                gtirb, shape_, raw, ir.get_by_uuid))))
+        except (Exception, core.ImplTimeout) as e:   # noqa
+            seq.append(("raised", type(e).__name__))
+        finally:
+            px.module = None
+            sym.module = None
+        ctx.evaluations += 3
+        ctx.count("resolution-across-edits:" + shape_)
+        ctx.nontriv(("resolution-across-edits", shape_, type(n).__name__))
+        want = [("attached", n), ("detached", n.uuid), ("re-attached", n)]
+        ok = len(seq) == 3 and all(
+            (g is w) if not isinstance(w, uuidlib.UUID) else
+            (type(g) is uuidlib.UUID and g == w)
+            for (_, g), (_, w) in zip(seq, want))
+        if not ok:
+            ctx.report({"kind": "stale-resolution", "type": shape_},
+                       {"type": shape_, "bytes": raw.hex(),
+                        "observed": [(a, repr(b)[:80]) for a, b in seq]},
+                       "a %s entry naming a node decoded to %s while the "
+                       "node was attached / detached / attached again"
+                       % (shape_, [(a, type(b).__name__) for a, b in seq]))
+            return
 
 
 def bad_arity_stream(ctx, world):
